@@ -131,7 +131,29 @@ def _work2(pid, tier, unit):
         return ("error", unit, traceback.format_exc())
 
 
+_LIVE = set()      # pids (= process-group ids) of the worker processes currently running
+
+
+def _kill_group(pid):
+    import signal
+    try:
+        os.killpg(pid, signal.SIGKILL)
+    except (ProcessLookupError, PermissionError):
+        pass
+
+
+def _on_terminate(signum, frame):
+    """The check itself is told to stop (e.g. by `timeout`): take the workers, and whatever they forked, along."""
+    for pid in list(_LIVE):
+        _kill_group(pid)
+    os._exit(143)
+
+
 def _child(conn, fn, arg):
+    try:
+        os.setsid()        # a process group of its own: a unit may fork pristine processes itself (mc.fresh)
+    except OSError:
+        pass
     try:
         conn.send(fn(arg))
     finally:
@@ -161,6 +183,7 @@ def _run_pool(fn, args, jobs, limit):
             p = ctx.Process(target=_child, args=(wr, fn, args[i]))
             p.start()
             wr.close()
+            _LIVE.add(p.pid)
             running[rd] = (p, i, time.time())
         for rd in wait(list(running), timeout=1.0):
             p, i, _ = running.pop(rd)
@@ -171,11 +194,14 @@ def _run_pool(fn, args, jobs, limit):
                 results[i] = ("error", args[i], "the worker process ended without a result (exit code %r)" % (p.exitcode,))
             rd.close()
             p.join()
+            _LIVE.discard(p.pid)
         now = time.time()
         for rd, (p, i, started) in list(running.items()):
             if now - started > limit:
+                _kill_group(p.pid)
                 p.kill()
                 p.join()
+                _LIVE.discard(p.pid)
                 running.pop(rd)
                 rd.close()
                 results[i] = ("error", args[i], "the unit did not finish within %d s (VERIF_UNIT_TIMEOUT): the code under test "
@@ -409,6 +435,9 @@ def main(argv=None):
     ap.add_argument("-j", type=int, default=int(os.environ.get("VERIF_JOBS", "16")))
     ap.add_argument("-q", action="store_true")
     a = ap.parse_args(argv)
+    import signal
+    signal.signal(signal.SIGTERM, _on_terminate)
+    signal.signal(signal.SIGINT, _on_terminate)
     try:
         seed = int(os.environ.get("VERIF_SEED", "0"))
     except ValueError:
